@@ -8,6 +8,7 @@ model.  Iteration settings, workbook file name, source hash and user extra_data 
 An audit hook records which files to_file / from_file really open.
 """
 import hashlib
+import glob
 import json
 import os
 import subprocess
@@ -48,7 +49,11 @@ HOSTILE = [
     'a\\nb', '"', "'", "it's", '""', '3', ' 3 ', '1e2', '-0', '.5', '5.', '0.1', '1,5', 'NaN', 'inf',
     '#N/A', '#VALUE!', 'TRUE', 'FALSE', '=1+1', '=A1', '=SUM(1)',
 ]
-NUMBERS = [1e-7, 1e22, -0.0, 123456789012345678, 0.1, 1 / 3, -2.5, 2 ** 53 + 1, 1e-300, 12345.678901234567]
+NUMBERS = [1e-7, 1e22, -0.0, 123456789012345678, 0.1, 1 / 3, -2.5, 2 ** 53 + 1, 1e-300, 12345.678901234567,
+           # floats whose shortest spelling has 16-17 digits and an exponent (a yaml writer that remembers the width
+           # of what it read may drop the last one when it writes the value again)
+           1.152921504606847e+18, 1.2345678901234567e+20, 9.007199254740993e+15, 1.7976931348623157e+308,
+           2.2250738585072014e-308, 6.02214076e+23, 5e-324]
 KNOWN_TEXT_CLASSES = [
     ('\u0085', 'text-constant/NEL-U+0085'),
 ]
@@ -431,11 +436,51 @@ def directed(ctx):
         ctx.count('directed:text-classes')
 
 
+def save_sequences(ctx):
+    """directed: several saves of one model to one base name, with different file types and a change in between;
+    whatever file a later to_file() call was asked to write must hold the model as it is then"""
+    from pycel import ExcelCompiler
+    spec = {'sheets': [['Sheet1', {'A1': 1, 'B1': '=A1*2', 'C1': '=B1&"x"'}]], 'names': {}, 'arrays': [], 'calc': None}
+    for text in ('yml', 'json'):
+        for between in ((), (text,), ('pkl', text), ('pkl',)):
+            base = os.path.join(ctx.tmpdir, f'seq-{text}-{"-".join(between) or "none"}-model')
+            case = {'kind': 'save-sequence', 'text': text, 'between': list(between)}
+            comp = wb.compile_mem(spec)
+            comp.evaluate('Sheet1!C1')
+            try:
+                comp.to_file(base, file_types=('pkl', text))          # state 0
+                comp.set_value('Sheet1!A1', 10)
+                comp.evaluate('Sheet1!C1')
+                if between:
+                    comp.to_file(base, file_types=between)            # state 1, some of the files
+                comp.to_file(base, file_types=('pkl', text))          # state 1, both files
+                loaded = {ext: ExcelCompiler.from_file(f'{base}.{ext}') for ext in ('pkl', text)}
+            except Exception as exc:
+                if not wb.raised_outside_harness(exc):
+                    raise
+                ctx.violation('save-sequence-raises', f'{wb.describe(exc)} [{case}]', case)
+                continue
+            finally:
+                for f in glob.glob(base + '.*'):
+                    os.remove(f)
+            ctx.count('directed:save_sequences')
+            ctx.case(('save-sequence', text, between))
+            for ext, model in loaded.items():
+                got = wb.outcome(model.evaluate, 'Sheet1!C1')
+                if got != ('v', '20x'):
+                    ctx.violation(f'file-written-by-to_file-holds-an-older-model/{ext}',
+                                  f'to_file(pkl+{text}); set_value; to_file({"+".join(between) or "nothing"}); '
+                                  f'to_file(pkl+{text}): the model loaded from the {ext} file gives C1 = {got!r}, '
+                                  f'the saved model has 20x', case)
+                    break
+
+
 def run(ctx):
     rng = ctx.rng
     i = 0
     if ctx.shard == 0:
         directed(ctx)
+        save_sequences(ctx)
     # save / load of the workbooks shipped with the repository
     realbooks.run_cases(ctx, realbooks.c03_case, realbooks.acyclic_books(), 6 if ctx.quick else 60, fraction=0.25)
     while not ctx.out_of_time():
@@ -461,6 +506,9 @@ def run(ctx):
 
 
 def replay(ctx, case):
+    if case.get('kind') == 'save-sequence':
+        save_sequences(ctx)
+        return
     if case.get('kind') == 'real-book':
         realbooks.c03_case(ctx, case['book'], case['case_seed'])
         return
